@@ -45,6 +45,16 @@ def huge_dimension(text):
     return False
 
 
+def huge_for_range(text):
+    """True if the source has a `for <id> in <a>..<b>` (or `..=`) over literal bounds spanning
+    >= 10^5 values."""
+    for m in re.finditer(r"\bfor\s+\w+(?:\s*:\s*\w+)?\s+in\s+(?:rev\s+)?([0-9][0-9_]*)\s*\.\.=?\s*([0-9][0-9_]*)", text):
+        a, b = int(m.group(1).replace("_", "")), int(m.group(2).replace("_", ""))
+        if b - a >= 10 ** 5:
+            return True
+    return False
+
+
 def recursive_type(text):
     """True if the struct/union declarations of the source reference each other in a cycle
     (member types naming another declared struct/union)."""
@@ -115,6 +125,10 @@ def run(ctx):
         elif r.startswith("slow") and re.search(r"\brepeat\s+[0-9_]{6,}", text):
             # signature verified on the input: a concatenation replicated >= 10^5 times
             key = "elaboration:huge-repeat-count:no-size-limit"
+        elif not r.startswith("panic") and huge_for_range(text):
+            # signature verified on the input: a `for` over a literal range of >= 10^5 values, which
+            # elaboration unrolls (time and memory linear in the range, no limit)
+            key = "elaboration:huge-for-range:no-size-limit"
         elif r.startswith("abort") and recursive_type(text):
             # signature verified on the input: struct/union declarations contain each other
             key = "elaboration:recursive-struct-union-type:stack-overflow"
